@@ -205,6 +205,8 @@ def _is_set_expr(fn: FuncInfo, e: ast.expr, depth: int = 0) -> bool:
         for n_ in walk_body(fn.node):
             if isinstance(n_, ast.AnnAssign) and isinstance(n_.target, ast.Name) and n_.target.id == e.id and _ann_is_set(n_.annotation):
                 return True
+            if isinstance(n_, ast.Assign) and getattr(n_, "annotation_", None) is not None and len(n_.targets) == 1 and isinstance(n_.targets[0], ast.Name) and n_.targets[0].id == e.id and _ann_is_set(n_.annotation_):  # type: ignore[attr-defined]
+                return True
         vals = [v for _, v in assignments_to(fn.node, e.id) if v is not None]
         return bool(vals) and all(_is_set_expr(fn, v, depth + 1) for v in vals)
     return False
